@@ -127,3 +127,36 @@ Definition tx_fee_map_ela (refs outs : list (Z * bool)) : Z :=
 
 (* totalTxFee += GetTxFee(...) over the block's transactions *)
 Definition block_fee (fees : list Z) : Z := wsum fees.
+
+(* ---- transaction types that end validation in SpecialContextCheck (no fee
+   check) and may carry outputs ---- *)
+
+(* SideChainPOWTransaction.CheckTransactionOutput for the new form (no inputs;
+   IsNewSideChainPowTx): exactly one output, of value 0 and type OTNone.  (With
+   inputs the per-output loop KStd and the fee check apply.) *)
+Definition sidepow_new_outputs_ok (outs : list outp) : bool :=
+  match outs with
+  | [o] => (o_val o =? 0) && (o_type o =? 0)
+  | _ => false
+  end.
+
+(* CRCAppropriationTransaction.CheckTransactionOutput: exactly two outputs, the
+   first to the CR expenses address [h0], the second to the CR assets address
+   [h1], then the per-output loop *)
+Definition approp_outputs_ok (pr : params) (h0 h1 : bool) (outs : list outp) : bool :=
+  (Z.of_nat (length outs) =? 2) && h0 && h1 && forallb (std_output_ok pr) outs.
+
+(* amount part of CRCAppropriationTransaction.SpecialContextCheck: an
+   appropriation is due, every reference is owned by the CR assets address
+   (tag), wrapping input total = wrapping output total, first output = the
+   committee's AppropriationAmount *)
+Definition approp_special_ok (needed : bool) (refs : list (Z * bool)) (outs : list Z) (amount : Z) : bool :=
+  needed && forallb snd refs && (wsum (map fst refs) =? wsum outs) &&
+  match outs with
+  | o0 :: _ => amount =? o0
+  | [] => false
+  end.
+
+Definition accept_approp (pr : params) (h0 h1 needed : bool) (amount : Z)
+                         (outs : list outp) (refs : list (Z * bool)) : bool :=
+  approp_outputs_ok pr h0 h1 outs && approp_special_ok needed refs (map o_val outs) amount.
